@@ -46,13 +46,14 @@ PROPS = {
     "C18": {
         "level": "exploration",
         "jobs": {
-            "quick": [job("pure", "mux", "verif", "c18", 8)],
-            "thorough": [job("pure", "mux", "verif", "c18", 16)],
+            "quick": [job("pure", "mux", "verif", "c18", 8), job("front", "e2e", "verif", "c18s", 4, timeout=600)],
+            "thorough": [job("pure", "mux", "verif", "c18", 16), job("front", "e2e", "verif", "c18s", 16, timeout=1800)],
         },
+        "required_targets": {"any": ["socks_conversations", "method_selections", "noauth_offered_not_first", "failure_replies", "connects_served"]},
         "assumptions": COMMON_ASSUMPTIONS + [
             "the reference grammar (harness/mux/src/c18.rs) is a correct reading of RFC 1928, SOCKS4 and the SOCKS4a convention (DSTIP 0.0.0.x, x != 0)",
             "SOCKS4 requests with DSTIP 0.0.0.0 or 0.a.b.c are outside the convention and carry no verdict; the reserved bytes of a UDP request header are not required to be checked",
-            "the live SOCKS path (listener, replies on a real socket, UDP association) is covered by C01, not here",
+            "job front (ve2e c18s): the SOCKS front-end of the real client is driven over loopback by scripted SOCKS clients; only what RFC 1928 / SOCKS4 fix is asserted (method selection, reply codes and formats, closing after a failure reply); UDP relaying through an association is covered by C01",
         ],
     },
     "C20": {
@@ -163,19 +164,20 @@ PROPS = {
             "quick": [job("sim", "mux", "verif", "c16", 8)],
             "thorough": [job("sim", "mux", "verif", "c16", 16)],
         },
-        "required_targets": {"any": ['timeouts_observed', 'live_runs_to_horizon', 'pending_ops_checked']},
+        "required_targets": {"any": ['timeouts_observed', 'live_runs_to_horizon', 'pending_ops_checked', 'sub_second_runs']},
         "assumptions": COMMON_ASSUMPTIONS + SIM_ASSUMPTIONS + ["all time is virtual (tokio paused clock; the TimestampProvider reads tokio's clock); timestamps are exact", "builder order is the client's (interval, then timeout); the reverse order is a recorded probe without verdict", "'never times out' is checked up to a horizon of 2000 intervals", "a Ping sent by the peer is not an answer to ours: a peer that only pings is a peer that stopped answering"],
     },
     "C10": {
         "level": "fault_enumeration",
         "jobs": {
-            "quick": [job("sim", "mux", "verif", "c10", 8)],
-            "thorough": [job("sim", "mux", "verif", "c10", 16)],
+            "quick": [job("sim", "mux", "verif", "c10", 8), job("ws", "e2e", "verif", "c10w", 2)],
+            "thorough": [job("sim", "mux", "verif", "c10", 16), job("ws", "e2e", "verif", "c10w", 16)],
         },
-        "required_targets": {"any": ["enumerated_sequences", "random_sequences", "garbage_runs", "overrun_runs"]},
+        "required_targets": {"any": ["enumerated_sequences", "random_sequences", "garbage_runs", "overrun_runs", "ws_level_cases", "invalid_messages", "harmless_messages"]},
         "assumptions": COMMON_ASSUMPTIONS + SIM_ASSUMPTIONS + [
             "the peer is a scripted raw peer speaking frames built by the reference codec; only what the statement and PROTOCOL.md fix is asserted (appendix A.4), every other reply of the endpoint is recorded and unconstrained",
             "exact per-step reply counts are asserted in stepwise mode (a quiescent point after every offending frame) against a small model of which named ids are in use; in burst mode only state-independent rules apply",
+            "job ws (ve2e c10w): the tokio-tungstenite adapter of ws.rs is driven by a raw tungstenite peer over an in-memory pipe under tokio's paused clock; bounds of 5 s are virtual time; the yawc adapter is not built",
         ],
     },
     "C12": {
@@ -229,7 +231,7 @@ PROPS = {
             "thorough": [job("e2e", "e2e", "verif", "c17", 3)],
         },
         "exhaustive_claim": True,
-        "required_targets": {"any": ["matrix_cells_executed", "reload_cycles", "certificate_request_probes", "signal_reload_cycles", "policy_columns_after_signal_reload"]},
+        "required_targets": {"any": ["matrix_cells_executed", "reload_cycles", "certificate_request_probes", "signal_reload_cycles", "policy_columns_after_signal_reload", "overtaken_reloads"]},
         "assumptions": COMMON_ASSUMPTIONS + E2E_ASSUMPTIONS + [
             "certificates are generated with rcgen at run time; 'reaches the server' = GET /health is answered 200 over the TLS stream (with TLS 1.3 a rejected client certificate only surfaces at the first read)",
             "whether a CertificateRequest was sent is observed with a recording rustls ResolvesClientCert",
@@ -255,7 +257,7 @@ PROPS = {
             "quick": [job("letgo", "mux", "verif", "c01b", 4), job("e2e", "e2e", "verif", "c01", 8, timeout=600)],
             "thorough": [job("letgo", "mux", "verif", "c01b", 16), job("e2e", "e2e", "verif", "c01", 16, timeout=3000)],
         },
-        "required_targets": {"any": ["conversations_completed", "udp_replies_checked", "half_close_then_opposite_direction", "close_refuse_abort_paths", "socks5_associations_with_two_targets", "local_close_with_reply_in_flight", "let_go_cases"]},
+        "required_targets": {"any": ["conversations_completed", "udp_replies_checked", "half_close_then_opposite_direction", "close_refuse_abort_paths", "socks5_associations_with_two_targets", "local_close_with_reply_in_flight", "let_go_cases", "live_replies_after_local_half_close"]},
         "assumptions": COMMON_ASSUMPTIONS + E2E_ASSUMPTIONS + [
             "absolute oracle with position-addressed payloads instead of a second run over a direct connection: each side must receive exactly the other side's stream, a direction's end is compared as ended / not ended",
             "for refusing / aborting targets only 'the local connection is closed and nothing the target did send is lost' is demanded (a tunnel turns a refused connect into an accepted-then-closed local connection)",
